@@ -330,8 +330,8 @@ zix_path_lexically_normal(ZixAllocator* const allocator, const char* const path)
   // Copy path, removing dot entries and collapsing separators as we go
   for (size_t i = root.end; i < path_len; ++i) {
     if (is_dir_sep(path[i])) {
-      if ((i >= root.end) && ((r == root.end + 1U && result[r - 1] == '.') ||
-                              (r >= root.end + 2U && result[r - 2] == sep &&
+      if ((i >= root.end) && ((r == root_len + 1U && result[r - 1] == '.') ||
+                              (r >= root_len + 2U && result[r - 2] == sep &&
                                result[r - 1] == '.'))) {
         // Remove dot entry and any immediately following separators
         result[--r] = '\0';
